@@ -22,7 +22,7 @@ ASSUMPTIONS = ['a key prefix literally named "full" or "metadata" together with 
 
 PREFIXES = ['', 'a', 'ab', 'a/b']
 ROOT = 'tape_recorder_recordings/'
-CATS = ['Op', 'OpX']
+CATS = ['Op', 'OpX', '/orders', '', 'a/b', 'Op']      # a request path, the empty name and a nested name are legal categories too
 
 
 def own_namespaces(prefix):
@@ -142,7 +142,7 @@ class Case(object):
                 nlog = len(fake.log)
                 try:
                     if op == 'create':
-                        rec = c.create_new_recording(CATS[r % 2])
+                        rec = c.create_new_recording(CATS[r % len(CATS)])
                         rec.set_data('k', r)
                         rec.add_metadata({'r': r})
                         pool.append((ci, rec))
@@ -177,7 +177,7 @@ class Case(object):
                     elif op == 'meta' and saved_ids:
                         c.get_recording_metadata(saved_ids[r % len(saved_ids)][1])
                     elif op == 'list':
-                        list(c.iter_recording_ids(CATS[r % 2], limit=[None, 1, 3][r % 3]))
+                        list(c.iter_recording_ids(CATS[r % len(CATS)], limit=[None, 1, 3][r % 3]))
                     elif op == 'close':
                         c.close()
                     elif op == 'exit':
